@@ -538,6 +538,17 @@ hwloc_get_common_ancestor_obj (hwloc_topology_t topology __hwloc_attribute_unuse
    * and obj2->parent. Also, even if at some point we find ancestors of
    * of the same depth, their ancestors may have different depth again.
    */
+  if (obj1->depth < 0 || obj2->depth < 0) {
+    /* Memory, I/O and Misc objects have special negative depths that cannot
+     * be compared with others, just look for the first common ancestor.
+     */
+    hwloc_obj_t a, b;
+    for(a = obj1; a; a = a->parent)
+      for(b = obj2; b; b = b->parent)
+	if (a == b)
+	  return a;
+    return NULL; /* cannot happen inside a single topology */
+  }
   while (obj1 != obj2) {
     while (obj1->depth > obj2->depth)
       obj1 = obj1->parent;
